@@ -237,8 +237,14 @@ pub fn gen_mismatch(t: &mut Tape, ty: Ty) -> (Lit, &'static str) {
 
 /// A literal for a parameter of type `ty`, drawn from the class mix of C03.
 pub fn gen_c03_lit(t: &mut Tape, ty: Ty) -> (Lit, &'static str) {
+    gen_c03_lit_nl(t, ty, false)
+}
+
+/// `newlines`: string and block payloads may contain the byte 0x0A (legal inside both containers;
+/// only sound where no parser-level fault can precede the payload, see `c03_sig_prop`).
+pub fn gen_c03_lit_nl(t: &mut Tape, ty: Ty, newlines: bool) -> (Lit, &'static str) {
     let cfg = LitCfg {
-        newlines: false,
+        newlines,
         specials: true,
         max_payload: 16,
     };
@@ -263,8 +269,16 @@ pub fn gen_c03_lit(t: &mut Tape, ty: Ty) -> (Lit, &'static str) {
             gen_float_lit(t, ty)
         }
         Ty::Bool => gen_bool_lit(t),
-        Ty::Str => (gen_string(t, &cfg), "string"),
-        Ty::Bytes => (gen_block(t, &cfg), "block"),
+        Ty::Str => {
+            let l = gen_string(t, &cfg);
+            let nl = matches!(&l, Lit::Str { body, .. } if body.contains(&b'\n'));
+            (l, if nl { "string with a newline" } else { "string" })
+        }
+        Ty::Bytes => {
+            let l = gen_block(t, &cfg);
+            let nl = matches!(&l, Lit::Block { body, .. } if body.contains(&b'\n'));
+            (l, if nl { "block with a newline" } else { "block" })
+        }
         _ => unreachable!(),
     }
 }
